@@ -2,7 +2,7 @@
 
 PROP = dict(
     level="proof",
-    lean_modules=['PopsModel.Props.C09', 'PopsModel.Props.C01Step'],
+    lean_modules=['PopsModel.Props.C09', 'PopsModel.Props.C01Step', 'PopsModel.Props.NonVacuous.Calendar'],
     theorems=['Pops.C09_order', 'Pops.C09_iff', 'Pops.C09_index', 'Pops.C09_frame_disabled', 'Pops.C09_spread_block', 'Pops.C09_compose', 'Pops.C09_frame_inputs', 'Pops.C09_measurements_pure'],
     commands=['hp.plan', 'hp.after', 'hp.cfg', 'hp.uniforms', 'cfgsched'],
     runs={
